@@ -221,6 +221,66 @@ def make_cells(chk):
 
 
 # ---------------------------------------------------------------------------
+# quota in multi-recipient transactions: over-quota and within-quota recipients in every order
+
+def make_quota_mix(chk):
+    """-> groups of cells that stay together in one world. A group first fills three mailboxes (a user, a role
+    mailbox, a user of another domain) with quota off, then runs transactions of 2-4 recipients with
+    quota_enabled and quota_limit = size + 20: every mailbox that already holds a message is over quota, a
+    mailbox that does not exist yet has room. Every O/W order: over first / middle / last, two over, all over,
+    none over, and the same address twice. Judged per position by the model and the spec (reply k is for
+    recipient k, positive iff recipient k has room; exactly those stores gain the message)."""
+    rng = chk.rng
+    nfresh = itertools.count()
+    full = [("existing", "TO:<alice@example.com>", "alice@example.com"), ("role", "TO:<support@example.com>", "support@example.com"),
+            ("existing_sp", "TO: <carol@other.org>", "carol@other.org")]
+
+    def room():
+        f = "w%d" % next(nfresh)
+        return ("unknown", "TO:<%s@example.com>" % f, "%s@example.com" % f)
+
+    pats = ["".join(p) for n in (2, 3, 4) for p in itertools.product("OW", repeat=n)]
+    if chk.tier == "quick":
+        pats = [p for p in pats if len(p) < 4] + ["OWWW", "WOWO", "WWOW", "OOWW", "WOOW", "OWOW"]
+    groups = []
+    ngroups = 2 if chk.tier == "quick" else 6
+    for gi in range(ngroups):
+        df = ["INBOX", "Archive", "Spam"][gi % 3]
+        base = {"default_folder": df, "allowed_domains": [], "reject_unknown_user": False, "max_recipients": 100}
+        cells = []
+        for f in full:      # fill the three mailboxes (quota off)
+            raw, hs = build_message([])
+            cfg = dict(base, max_size=len(raw) + 5000, quota_enabled=False, quota_limit=1 << 30)
+            cells.append({"cfg": cfg, "lines": [f], "raw": raw, "hs": hs, "spam": "none",
+                          "cfgsym": {"quota_mix": "fill", "df": df, "g": gi, "to": f[2]}})
+        plist = list(pats)
+        rng.shuffle(plist)
+        extra = ["dup_over", "dup_room", "dup_over_then_room", "limit3"]
+        for pat in plist + extra:
+            if pat == "dup_over":
+                o = rng.choice(full)
+                lines = [o, room(), o]
+            elif pat == "dup_room":
+                w = room()
+                lines = [rng.choice(full), w, w]
+            elif pat == "dup_over_then_room":
+                o = rng.choice(full)
+                lines = [o, o, room(), room()]
+            elif pat == "limit3":
+                lines = [rng.choice(full), room(), room(), room(), rng.choice(full)]
+            else:
+                lines = [rng.choice(full) if ch == "O" else room() for ch in pat]
+            sv = rng.choice(SPAM_VARIANTS)
+            raw, hs = build_message(sv[1])
+            cfg = dict(base, max_size=len(raw) + 5000, quota_enabled=True, quota_limit=len(raw) + 20,
+                       max_recipients=3 if pat == "limit3" else 100)
+            cells.append({"cfg": cfg, "lines": lines, "raw": raw, "hs": hs, "spam": sv[0], "quota_mix": pat,
+                          "replay_with": cells[:len(full)], "cfgsym": {"quota_mix": pat, "df": df, "g": gi}})
+        groups.append(cells)
+    return groups
+
+
+# ---------------------------------------------------------------------------
 # multi-transaction sessions (one connection, no RSET between the transactions)
 
 SESSION_KINDS = ["ok", "oversize", "unparsable", "norcpt", "limit", "unknown"]
@@ -663,6 +723,9 @@ def payload_of(cell, before, ob):
          "observed": {"mail_ok": ob["mail_ok"], "rcpt_codes": ob["rcpt_codes"], "data_first": ob["data_first"], "replies": ob["replies"],
                       "accepted": ob["flags"], "gains": [list(map(str, g)) for g in ob["gains"]]},
          "replay": "bin/check C17 replay <this file>"}
+    if cell.get("replay_with"):
+        # the transactions that filled the mailboxes come first in the replay
+        p["session"] = [plain_cell(c) for c in cell["replay_with"]] + [plain_cell(cell)]
     if cell.get("session_all"):
         # the transaction is part of a session: the whole session (same connection, no RSET) is the replay
         p["session"] = [plain_cell(c) for c in cell["session_all"]]
@@ -869,7 +932,8 @@ def run(chk):
     corpus = load_corpus()
     cells = make_cells(chk)
     sessions = make_sessions(chk)
-    flat, r = run_policy(chk, cells, corpus, sessions)
+    mixes = make_quota_mix(chk)
+    flat, r = run_policy(chk, cells, corpus, mixes + sessions)
     if r is None:
         return
     model_bad, spec_bad, classes, pverdicts, sess_groups, sess_bad = r
@@ -903,6 +967,9 @@ def run(chk):
         cell, before, ob, ccls = flat[i]
         what = "policy cell: lines=%r cfg=%r -> RCPT %r, accepted %r, gains %r; the documented policy says otherwise" % (
             [a for (_, a, _) in cell["lines"]], {k: v for k, v in cell["cfg"].items()}, ob["rcpt_codes"], ob["flags"], ob["gains"])
+        if cell.get("quota_mix"):
+            what = "quota in a multi-recipient transaction (pattern %s, O = mailbox over quota, W = has room): DATA replies %r; " % (
+                cell["quota_mix"], ob["replies"]) + what
         if cell.get("session_all"):
             k = cell["session_all"].index(cell)
             what = "transaction %d of a session (same connection, no RSET) after %r: %d DATA replies; " % (
@@ -945,6 +1012,10 @@ def run(chk):
             chk.broken_obligation("correspondence session no longer checks: the replies of session %r (MAIL %r) differ from run_session" % (
                 [flat[i][0].get("kind") for i in g], [flat[i][2]["mail_ok"] for i in g]),
                 {"suite": "sessions", "cells": [payload_of(*flat[i][:3]) for i in g]})
+    qm = [f for f in flat if f[0].get("quota_mix")]
+    chk.cov["quota_mix_transactions"] = len(qm)
+    chk.cov["quota_mix_partial"] = sum(1 for f in qm if any(f[2]["flags"]) and not all(f[2]["flags"]))
+    chk.cov["quota_mix_replies_552"] = sum(f[2]["replies"].count(552) for f in qm)
     chk.cov["sessions"] = len(sess_groups)
     chk.cov["session_transactions"] = sum(len(g) for g in sess_groups)
     chk.cov["session_first_kinds"] = {k: sum(1 for g in sess_groups if flat[g[0]][0].get("kind") == k) for k in SESSION_KINDS}
@@ -970,7 +1041,8 @@ def run(chk):
                        "Configuration product: default_folder{INBOX,Archive,Spam} x allowed_domains{empty,match,no-match} x "
                        "reject_unknown_user x max_recipients{1,2,100} x max_size{len-1,len,big} x quota{off,under,over,=size,=size-1} "
                        "(810; quick: seeded sample, thorough: all) x 30 recipient classes (incl. '_'/'%'/case twins of role addresses and users) x 19 spam-header variants (rotating), "
-                       "plus multi-recipient transactions; plus multi-transaction sessions on one connection without RSET "
+                       "plus multi-recipient transactions; plus quota transactions of 2-4 recipients mixing over-quota and "
+                       "within-quota mailboxes in every order (incl. the same address twice), judged per position; plus multi-transaction sessions on one connection without RSET "
                        "(first transaction accepted / over size 552 / unparsable 554 / no accepted recipient 503 / recipient limit / "
                        "unknown user, then a second and third transaction to other recipients; every transaction compared as a "
                        "fresh transaction on the database view before it, and the whole session with run_session); direct-call suites for parseRcptTo, address splitting, isSpamByHeaders, "
